@@ -254,10 +254,101 @@ def alternating_loops(aiu, nloops, seq, R, st):
         st.violation(kind, detail, {'mode': 'alternating', 'nloops': nloops, 'seq': seq, 'R': R})
 
 
+def threads_world(aiu, w, prefix=(), expect=None):
+    """Engine B: one decorated batcher used from 2..3 loops running concurrently in their own threads."""
+    from mc import tx
+    sched = tx.Sched(prefix, expect, horizon=100.0, budget=30000)
+    tx.bind_asyncio_seams(aiu, sched)
+    obs = B.Obs()
+    func = B.make_func(obs, sched, {}, 'fwd', 0.0, w['batch_dur'])
+    deco = aiu.async_background_batcher(max_batch_size=2, batch_timeout=1.0, retention_timeout=w['R'])(func)
+    outs = {}
+
+    def body(ti):
+        def run():
+            async def main():
+                res = []
+                for rnd in range(w['rounds']):
+                    try:
+                        vals = await asyncio.gather(deco((ti, 0), key='0'), deco((ti, rnd + 1), key=f'{rnd + 1}'))
+                        res.append(('ok', vals))
+                    except tx.SchedAbort:
+                        raise
+                    except BaseException as e:   # noqa
+                        res.append(('exc', e))
+                outs[ti] = (res, asyncio.get_running_loop())
+            asyncio.run(main(), loop_factory=lambda: sched.new_loop(f'L{ti}'))
+        return run
+    for ti in range(w['nloops']):
+        sched.spawn(body(ti), name=f'T{ti}')
+    aborted = sched.run()
+    x = tx.Execution()
+    x.choices, x.aborted, x.trace, x.sched = sched.choices, aborted, sched.trace, sched
+    bad = []
+    if aborted:
+        bad.append((f'execution_{aborted}', 'threads using the decorated batcher never finish'))
+    for ti in range(w['nloops']):
+        if ti not in outs:
+            if not aborted:
+                bad.append(('caller_never_answered', f'thread {ti} did not finish'))
+            continue
+        res, loop = outs[ti]
+        for rnd, r in enumerate(res):
+            if r[0] != 'ok':
+                bad.append(('wrong_outcome', f'loop #{ti} round {rnd}: raised {type(r[1]).__name__}: {r[1]}'))
+                continue
+            for v, want in zip(r[1], ('0', f'{rnd + 1}')):
+                rec = next((b for b in obs.batches if b['bid'] == v.bid and any(o is v for _, o in b['yields'])), None)
+                if v.key != want or rec is None:
+                    bad.append(('wrong_outcome', f'loop #{ti} round {rnd}: got {v!r} for key {want}'))
+                elif rec['loop'] is not loop:
+                    bad.append(('served_by_other_loop', f'loop #{ti} round {rnd} key {want} answered by a batch on '
+                                                        f'another loop'))
+    for b in obs.batches:
+        owners = {a[0] for _, a in b['items']}
+        if len(owners) > 1:
+            bad.append(('batch_mixes_loops', f'batch {b["bid"]} carries items submitted on loops {sorted(owners)}'))
+    x.result = (bad, tuple(sorted((ti, tuple(r[0] for r in outs[ti][0])) for ti in outs)), len(obs.batches))
+    return x
+
+
 def run_case(item):
     from aiuti import asyncio as aiu
     st = Stats()
     kind = item[0]
+    if kind == 'threads':
+        from mc import tx
+        _, w, pb, shard, nsh = item
+        tx.install_monitoring(common.SRC)
+        tx.save_asyncio_seams(aiu)
+
+        def run_one(prefix, expect):
+            x = threads_world(aiu, w, prefix, expect)
+            if x.aborted == 'wall_timeout':
+                raise common.MachineryError(f'wall-clock timeout in {w}')
+            return x
+
+        def on_exec(prefix, x):
+            st.executions += 1
+            st.transitions += x.sched.points
+            st.sig(('threads', json.dumps(w, sort_keys=True), x.result[1], x.result[2], x.aborted))
+            st.count('thread_schedules')
+            for kind_, detail in x.result[0]:
+                st.violation(kind_, f'[{w}] ' + detail, {'mode': 'threads', 'w': w, 'prefix': list(prefix)})
+        try:
+            root = run_one((), None)
+            if shard == 0:
+                on_exec((), root)
+            for i, kid in enumerate(tx.children(root.choices, 0, pb, 2)):
+                if i % nsh == shard:
+                    tx.explore(run_one, pb, root=kid, on_exec=on_exec, fbound=2)
+        except tx.Divergence as e:
+            raise common.MachineryError(f'{w}: {e}')
+        finally:
+            tx.restore_asyncio_seams(aiu)
+        if shard == 0:
+            st.sample({'mode': 'concurrent loops in threads (engine B)', 'world': w, 'preemption_bound': pb})
+        return st
     if kind == 'alt':
         _, nloops, R, ln = item
         for loops_seq in itertools.product(range(nloops), repeat=ln):
@@ -349,6 +440,11 @@ def main(tier):
     plan += [('buffer', 0.25), ('buffer', 3.0), ('cache',)]
     plan += [('multi', n, ko, R) for n in (1, 2, 3) for ko in (False, True) for R in (0.0, 2.0)]
     plan += [('alt', n, R, ln) for n in (2, 3) for R in (0.0, 2.0) for ln in ((2, 3, 4) if tier == 'quick' else (2, 3, 4, 5))]
+    for nl, pb, rounds in ((2, 1, 2), (3, 1, 1)) if tier == 'quick' else ((2, 2, 2), (3, 1, 2)):
+        for R in (0.0, 2.0):
+            for bd in (0.0, 1.0):
+                w = {'nloops': nl, 'R': R, 'batch_dur': bd, 'rounds': rounds}
+                plan += [('threads', w, pb, s, 4) for s in range(4)]
     for st in common.pmap(run_case, plan):
         total.merge(st)
     rc = common.finish(
@@ -358,7 +454,7 @@ def main(tier):
               'class; complete virtual-time logs must be identical and must differ from the default '
               'configuration (sensitivity); a decorated batcher is then driven from 1..3 successive loops '
               '(closed or kept open) with all 2-call programs per loop'),
-        assumptions=['virtual clock; concurrent use from several loops is explored by engine B (see DESIGN)'])
+        assumptions=['virtual clock', 'concurrent use from 2..3 loops in threads: engine B, preemption bound 1 (thorough 2 for two loops)'])
     if rc != 1 and any(n.startswith('VACUOUS') for n in total.notes):
         print('machinery error: ' + '; '.join(sorted(total.notes)))
         return 2
@@ -376,6 +472,14 @@ def replay(path):
         a = run_batcher(aiu, 'class', doc['opts'], prog, doc['batch_dur'])
         b = run_batcher(aiu, doc['form'], doc['opts'], prog, doc['batch_dur'])
         return 1 if a != b else 0
+    if doc['mode'] == 'threads':
+        from mc import tx
+        tx.install_monitoring(common.SRC)
+        tx.save_asyncio_seams(aiu)
+        x = threads_world(aiu, doc['w'], tuple(doc['prefix']), None)
+        for b in x.result[0]:
+            print('PROBLEM', b)
+        return 1 if x.result[0] else 0
     if doc['mode'] == 'alternating':
         alternating_loops(aiu, doc['nloops'], [tuple(x) for x in doc['seq']], doc['R'], st)
     elif doc['mode'] == 'multi_loop':
